@@ -231,17 +231,15 @@ impl CartState for MBC1CartState {
   }
 
   fn get_rom_bank(&self) -> usize {
-    let bank = if self.select_ram {
-      self.rom_bank
-    } else {
+    // The 5-bit bank register reads 0 as 1, whichever banking mode is selected
+    let mut bank = self.rom_bank;
+    if bank == 0 {
+      bank = 1;
+    }
+    if !self.select_ram {
       let bank_high = self.ram_bank << 5;
-      let mut bank = self.rom_bank;
-      if bank == 0 {
-        bank = 1;
-      }
       bank |= bank_high;
-      bank
-    };
+    }
     reduce_bank(bank, self.rom_bank_count)
   }
 
